@@ -881,11 +881,13 @@ class Messenger(Connection):
 
         sock_tls = self.get_secure_socket()
         if sock_tls:
-            # Native (python ssl) validation for reference
-            try:
-                ssl.match_hostname(sock_tls.getpeercert(), peer_dnsid or peer_addr_str)
-            except ssl.CertificateError as err:
-                self._logger.warning('Native name validation failed: %s', err)
+            # Native (python ssl) validation for reference, where it still
+            # exists (it was removed from the ssl module in Python 3.12)
+            if hasattr(ssl, 'match_hostname'):
+                try:
+                    ssl.match_hostname(sock_tls.getpeercert(), peer_dnsid or peer_addr_str)
+                except ssl.CertificateError as err:
+                    self._logger.warning('Native name validation failed: %s', err)
 
             # Verify TLS name bindings
             cert_der = sock_tls.getpeercert(True)
